@@ -58,6 +58,33 @@ def scoreCmd : List String → Option String
         | .emptyLevelChosen l => some s!"empty-level {l}"
       else none
     | _, _, _, _, _ => none
+  -- `score.pickany <l0Trigger> <levelOneMax> <scoredLevels> <maxFileSize> <pointers> <levels> <sizes> <seek>`:
+  -- the whole `pick_compaction`; `<seek>` = `*` or `<level>/<file number>` (the recorded
+  -- `file_to_compact`; the number must be a file of that level).  Answers as `score.pick`.
+  | ["score.pickany", t, m, n, mx, ptrs, levels, sizes, seek] =>
+    match parseParams t m n, mx.toNat?, parsePointers ptrs, parseLevels levels, parseSizes sizes with
+    | some p, some mfs, some ps, some lv, some sz =>
+      let sized : Bool := lv.flatten.all fun f => sz.any fun q => q.1 == f.num
+      let size : Nat → Nat := fun k => ((sz.find? fun q => q.1 == k).map Prod.snd).getD 0
+      let sk : Option (Option (Nat × File)) :=
+        if seek == "*" then some none else
+        match seek.splitOn "/" with
+        | [l, num] =>
+          match l.toNat?, num.toNat? with
+          | some l, some num => ((lv.getD l []).find? fun f => f.num == num).map fun f => some (l, f)
+          | _, _ => none
+        | _ => none
+      match sk with
+      | none => none
+      | some sk =>
+        if sized && lv.length == 7 then
+          match pickAny p mfs size lv ps sk with
+          | .nothing => some "none"
+          | .picked l a b => some s!"picked {l} {showNums a} {showNums b}"
+          | .lastLevelChosen l => some s!"last-level {l}"
+          | .emptyLevelChosen l => some s!"empty-level {l}"
+        else none
+    | _, _, _, _, _ => none
   | _ => none
 
 end Rain.Driver
